@@ -1,6 +1,6 @@
 (* Properties/C20.v — C20: IdP TLS trust follows the configuration, including CA rotation (decision and bookkeeping
    logic; X.509 and the handshake are Go's, exercised by the correspondence run). *)
-From AS Require Import Base.Str Tls.Pool Proofs.P20.
+From AS Require Import Base.Str Tls.Pool Proofs.P20 Proofs.P20b.
 
 (* a first load of settings builds: configured inline CA -> system roots + that CA, verification on; else CA file ->
    system roots + the file's content (system roots only when the file is empty), verification on; else the
@@ -50,6 +50,20 @@ Theorem C20_rotation :
     nth_error (objs (tick pem_ok (rewrite_file st1 (ts_file s) c'))) 0 = Some {| tc_extra_ca := Some c'; tc_insecure := false |}.
 Proof. exact rotation_reaches_pooled_config. Qed.
 Print Assumptions C20_rotation.
+
+(* rotation, for every history: after ANY sequence of loads (of settings from a list S in which the interval text
+   determines the interval), rewrites of any file and ticks, when the CA file of pooled settings that watch it is
+   rewritten with usable content, the next tick puts that content into the pooled object of those settings *)
+Theorem C20_rotation_all_histories :
+  forall pem_ok, pem_ok "" = false ->
+  forall S, (forall s1 s2, In s1 S -> In s2 S -> pool_id s1 = pool_id s2 -> ts_interval s1 = ts_interval s2) ->
+  forall fs ops s k c',
+    loads_from_S S ops -> In s S -> watched s ->
+    let st := fold_left (papply pem_ok) ops (pinit fs) in
+    pool_lookup (pool_id s) (pool st) = Some k -> pem_ok c' = true ->
+    Good (objs (tick pem_ok (rewrite_file st (ts_file s) c'))) k c'.
+Proof. intros pem_ok E S C fs ops s k c'. exact (rotation_all_histories pem_ok E S C fs ops s k c'). Qed.
+Print Assumptions C20_rotation_all_histories.
 
 (* a watcher is superseded - and then stops - exactly when the same settings register again for the same file (a
    retry after a failed load); registrations of other settings leave it running *)
